@@ -44,6 +44,9 @@ def run(repo: Repo, tier: str, res: CheckResult, seed: int = 0) -> None:
     lock_bodies(repo, res)
     per_request_objects(repo, res)
     handed_over_containers(repo, res)
+    from .c20 import stateful_closures
+    stateful_closures(repo, res, "C12", "RACE.runtime-closure-shares-state",
+                      "every thread that uses the retort runs this one closure: the container is read and modified concurrently without a lock, and a re-entrant call (recursive types) clobbers the state of the outer one")
     res.assumptions = list(ASSUMPTIONS)
 
 
